@@ -15,6 +15,12 @@ import (
 func commonObligations(p *Prog, r *Report) {
 	keeperBindingObligation(p, r)
 	mutationDiscipline(p, r)
+	resolutionObligation(p, r)
+	wiringExact(p, r)
+	moduleHooksObligation(p, r)
+	boundaryObligation(p, r)
+	accessorObligation(p, r)
+	generatedObligation(p, r)
 	// 1. every non-test .go file on disk under x/cctp is compiled into a loaded package
 	compiled := map[string]bool{}
 	for _, path := range modulePkgs {
@@ -291,5 +297,87 @@ func wiringObligations(p *Prog, r *Report) {
 			}
 		}
 		r.check(found, "wiring", "wiring/"+w.method, "", w.method+" calls "+w.callee, w.method+" does not call "+w.callee)
+	}
+}
+
+// resolutionObligation: every call in module code resolves to the code that runs — no invoke
+// on an interface a module type implements, no function value of unknown origin, no recursive
+// helper whose inner activation the effect summary would skip. (All properties: an unresolved
+// call can hide any effect, check or write.)
+func resolutionObligation(p *Prog, r *Report) {
+	n, bad := 0, 0
+	seen := map[string]bool{}
+	isCLI := func(fn *ssa.Function) bool {
+		top := fn
+		for top.Parent() != nil {
+			top = top.Parent()
+		}
+		return top.Package() != nil && top.Package().Pkg.Path() == modulePkgs[3]
+	}
+	for _, fn := range p.Funcs {
+		if isCLI(fn) {
+			continue // CLI: gRPC client stubs (types.QueryClient / MsgClient), not consensus code
+		}
+		n++
+		for _, u := range p.effects(fn).unresolved {
+			key := "unresolved/" + funcName(fn) + "/" + u
+			if !seen[key] {
+				seen[key] = true
+				bad++
+				r.fail("resolution", key, p.pos(fn.Pos()), "unresolved dynamic call in module code: "+u)
+			}
+		}
+		for _, b := range fn.Blocks {
+			for _, in := range b.Instrs {
+				switch in := in.(type) {
+				case *ssa.Defer:
+					// the only deferred call of the reference tree: closing a store iterator. A deferred
+					// call runs after everything the path rules order, and no term, must-pass or caller
+					// rule looks at it.
+					if !(in.Call.IsInvoke() && in.Call.Method.Name() == "Close" && strings.HasSuffix(in.Call.Value.Type().String(), "Iterator")) {
+						bad++
+						r.fail("resolution", "deferred/"+funcName(fn)+"/"+calleeLabel(in), p.instrPos(in), funcName(fn)+" defers "+calleeLabel(in)+": a deferred call runs after the steps the rules order and is not a call site for any of them (only iterator.Close() is deferred in the reference tree)")
+					}
+				case *ssa.Call:
+					// interface methods: only the dependency / SDK interfaces of the reference tree. An
+					// invoke runs code chosen at run time; for these the rules know what it may do (store
+					// primitives, codec, bank, token factory, event manager, iterator, context). Any other
+					// interface (hash.Hash, sort.Interface, io.Writer, a module-made one) can hide state,
+					// memory writes or module code.
+					if in.Call.IsInvoke() {
+						nm := invokeName(&in.Call)
+						if !readOnlyInvokes[nm] && !decoderInvokes[nm] {
+							bad++
+							key := "invoke/" + funcName(fn) + "/" + nm
+							if !seen[key] {
+								seen[key] = true
+								r.fail("resolution", key, p.instrPos(in), funcName(fn)+" calls the interface method "+nm+", which is not one of the reference tree's dependency interfaces: what runs there (hidden state, writes into its arguments, module code) is outside every rule")
+							}
+						}
+					}
+				case *ssa.Go:
+					bad++
+					r.fail("resolution", "goroutine/"+funcName(fn), p.instrPos(in), funcName(fn)+" starts a goroutine: concurrent module code is outside every rule (and non-deterministic)")
+				case *ssa.Select:
+					bad++
+					r.fail("resolution", "select/"+funcName(fn), p.instrPos(in), funcName(fn)+" uses select")
+				}
+			}
+		}
+		if fn.Parent() == nil {
+			for _, e := range p.closure(fn) {
+				if e.Kind == "UNRESOLVED" && strings.HasPrefix(e.Region, "recursive") {
+					key := "unresolved/" + funcName(fn) + "/" + e.Region
+					if !seen[key] {
+						seen[key] = true
+						bad++
+						r.fail("resolution", key, p.pos(fn.Pos()), e.Region+" via "+strings.Join(e.Chain, " > "))
+					}
+				}
+			}
+		}
+	}
+	if bad == 0 {
+		r.ok("resolution", "resolution/all", "", fmt.Sprintf("%d module functions: every call resolves statically, to a dependency interface, or to a function value bound at the call site; no recursion", n))
 	}
 }
